@@ -64,13 +64,13 @@ Definition split_last {A} (l : list A) : option (list A * A) :=
    7 [_missing_:f; _exists_:f] *)
 Definition law (kind : N) (bs : list bool) : bool :=
   match kind with
-  | 1%N => match bs with [a; b] => Bool.eqb b (negb a) | _ => false end
-  | 2%N => match split_last bs with Some (xs, r) => Bool.eqb r (forallb (fun x => x) xs) | None => false end
-  | 3%N => match split_last bs with Some (xs, r) => Bool.eqb r (existsb (fun x => x) xs) | None => false end
-  | 4%N => match bs with [r; a; b] => Bool.eqb r (a && b) | _ => false end
-  | 5%N => match bs with [a; b] => Bool.eqb a b | _ => false end
-  | 6%N => match bs with [a; b] => implb a b | _ => false end
-  | 7%N => match bs with [a; b] => Bool.eqb a (negb b) | _ => false end
+  | 1%N => match bs with [a; b] => Bool.eqb b (negb a) | _ => true end
+  | 2%N => match split_last bs with Some (xs, r) => Bool.eqb r (forallb (fun x => x) xs) | None => true end
+  | 3%N => match split_last bs with Some (xs, r) => Bool.eqb r (existsb (fun x => x) xs) | None => true end
+  | 4%N => match bs with [r; a; b] => Bool.eqb r (a && b) | _ => true end
+  | 5%N => match bs with [a; b] => Bool.eqb a b | _ => true end
+  | 6%N => match bs with [a; b] => implb a b | _ => true end
+  | 7%N => match bs with [a; b] => Bool.eqb a (negb b) | _ => true end
   | _ => true
   end.
 
